@@ -104,6 +104,14 @@ func raceRun(t *testing.T, rng *rand.Rand, dir string) {
 			post("/api/v1/authorize-equipment", d.Auth)
 		}
 	}
+	// Strong runs keep the outcome order-independent (registered before the
+	// workers start, no bans, no clock steps): then the final per-slot values
+	// are a function of the set of reports sent (the rule of C02) and every
+	// registration attempt must be refused, whatever the real schedule was.
+	strong := registered && rng.IntN(2) == 0
+	var sentMu sync.Mutex
+	sent := map[[2]uint32]map[Report]bool{}
+	regOK := 0
 	workers := 8 + rng.IntN(40)
 	var wg sync.WaitGroup
 	start := make(chan struct{})
@@ -120,17 +128,31 @@ func raceRun(t *testing.T, rng *rand.Rand, dir string) {
 				d := devs[gr.IntN(len(devs))]
 				switch gr.IntN(12) {
 				case 0:
-					post("/api/v1/register-gca", reg)
+					if post("/api/v1/register-gca", reg) == 200 {
+						sentMu.Lock()
+						regOK++
+						sentMu.Unlock()
+					}
 				case 1:
 					post("/api/v1/authorize-equipment", d.Auth)
 				case 2:
+					if strong {
+						continue
+					}
 					a := d.Auth
 					a.Debt += uint64(1 + gr.IntN(2))
 					post("/api/v1/authorize-equipment", SignAuth(gca, a))
 				case 3, 4:
 					now := glow.CurrentTimeslot()
-					b := SignedReport(d.Key, d.ID, now-uint32(gr.IntN(30)), uint64(500+gr.IntN(3))).Encode()
-					s.VerifHandleDatagram(b)
+					r := SignedReport(d.Key, d.ID, now-uint32(gr.IntN(8)), uint64(500+gr.IntN(3)))
+					sentMu.Lock()
+					k := [2]uint32{r.ID, r.Slot}
+					if sent[k] == nil {
+						sent[k] = map[Report]bool{}
+					}
+					sent[k][r] = true
+					sentMu.Unlock()
+					s.VerifHandleDatagram(r.Encode())
 				case 5:
 					post("/api/v1/authorized-servers", SignServer(gca, server.AuthorizedServer{PublicKey: Key(fmt.Sprintf("peer%d", gr.IntN(3))).Pub, Banned: gr.IntN(4) == 0, Location: n.Loc, HttpPort: n.HTTP}))
 				case 6:
@@ -156,7 +178,7 @@ func raceRun(t *testing.T, rng *rand.Rand, dir string) {
 				case 10:
 					get("/api/v1/archive")
 				case 11:
-					if gr.IntN(4) == 0 {
+					if gr.IntN(4) == 0 && !strong {
 						glow.SetCurrentTimeslot(glow.CurrentTimeslot() + uint32(1+gr.IntN(3300)))
 					}
 					get("/api/v1/recent-reports?publicKey=00")
@@ -167,7 +189,34 @@ func raceRun(t *testing.T, rng *rand.Rand, dir string) {
 	close(start)
 	wg.Wait()
 	if f := s.VerifCheckInvariants(); f != nil {
-		fmt.Printf("RACE-MODE-INVARIANT %v\n", f)
+		fmt.Printf("RACE-MODE-VIOLATION C13.linear@invariants the server's own consistency check fails after a concurrent workload: %v\n", f)
+	}
+	if (registered && regOK > 0) || regOK > 1 {
+		fmt.Printf("RACE-MODE-VIOLATION C13.linear@registration %d registrations succeeded in one concurrent workload (already registered before: %v)\n", regOK, registered)
+	}
+	if strong {
+		snap := s.VerifSnapshot(true)
+		got := map[[2]uint32]uint64{}
+		for id, slots := range snap.Reports {
+			for _, sl := range slots {
+				got[[2]uint32{id, snap.Offset + sl.Index}] = sl.Report.PowerOutput
+			}
+		}
+		for k, set := range sent {
+			want := uint64(1) // two or more distinct valid reports: banned
+			if len(set) == 1 {
+				for r := range set {
+					want = r.Power
+				}
+			}
+			if got[k] != want {
+				fmt.Printf("RACE-MODE-VIOLATION C13.linear@slot-value device %d timeslot %d holds %d after a concurrent workload that delivered %d distinct valid reports for it; every sequential order gives %d\n", k[0], k[1], got[k], len(set), want)
+				break
+			}
+		}
+		if len(got) != len(sent) {
+			fmt.Printf("RACE-MODE-VIOLATION C13.linear@slot-count the server holds %d slot records after a concurrent workload that reported %d distinct (device, timeslot) pairs\n", len(got), len(sent))
+		}
 	}
 	s.Close()
 	cur = nil
